@@ -2,7 +2,10 @@
     src/uint/div_limb.rs on every run (Src/GenDiv.v). Statements only; proofs in Src/GenDivP.v. *)
 From CB Require Import Model.SrcPrelude Model.Word Model.Limbs Model.Div Src.GenPrim Src.GenDiv Src.GenPrimP Src.GenDivP.
 From CB Require Import Proofs.WordP Proofs.DivP Proofs.Div3by2P Proofs.RecipP.
-From Coq Require Import ZArith.
+From CB Require Import Src.GenShift Src.GenDivLimb Src.GenDivLimbP.
+From CB Require Import Model.DivL0 Src.GenUint Src.GenMul Src.GenBits Src.GenDivCt Src.GenDivCtP.
+From Coq Require Import ZArith List.
+Import ListNotations.
 Open Scope Z_scope.
 
 (** the source text of short_div, reciprocal, div2by1, div3by2 denotes the model functions *)
@@ -43,4 +46,93 @@ Print Assumptions C02_src_div2by1_exact.
 (** non-vacuity: the generated text runs *)
 Example C02_src_runs : g_reciprocal (2 ^ 63) = 2 ^ 64 - 1 /\ g_reciprocal (2 ^ 64 - 1) = 1 /\
   g_div2by1 5 7 (g_of_recip (recip_new (2 ^ 63 + 3))) = div2by1 5 7 (recip_new (2 ^ 63 + 3)).
+Proof. vm_compute. repeat split. Qed.
+
+
+(** ---- the limb-division loops (Src/GenDivLimb.v, proofs in Src/GenDivLimbP.v): for EVERY limb count 1 <= L < 2^64 ---- *)
+
+(** Reciprocal::new: the source text (leading_zeros, shift, reciprocal) is the model, for every word *)
+Theorem C02_src_reciprocal_new : forall d, g_Reciprocal_new d = g_of_recip (recip_new d).
+Proof. exact g_Reciprocal_new_eq. Qed.
+Print Assumptions C02_src_reciprocal_new.
+
+(** hence for every non-zero limb the SOURCE routine returns shift < 64, the normalised divisor d * 2^shift and its exact
+    reciprocal floor((2^128 - 1) / dn) - 2^64 *)
+Theorem C02_src_reciprocal_new_exact : forall d, 0 < d < B ->
+  exists rc, g_Reciprocal_new d = g_of_recip rc /\ recip_for d rc.
+Proof. exact g_Reciprocal_new_exact. Qed.
+Print Assumptions C02_src_reciprocal_new_exact.
+
+Theorem C02_src_div_rem_limb : forall n u rc, length u = n -> (1 <= n)%nat -> Z.of_nat n < 2 ^ 64 -> wf u -> recip_words rc ->
+  g_div_rem_limb_with_reciprocal n u (g_of_recip rc) = div_rem_limb_with_reciprocal u rc.
+Proof. exact g_div_rem_limb_with_reciprocal_eq. Qed.
+Print Assumptions C02_src_div_rem_limb.
+
+Theorem C02_src_rem_limb : forall n u rc, length u = n -> (1 <= n)%nat -> Z.of_nat n < 2 ^ 64 -> wf u -> recip_words rc ->
+  g_rem_limb_with_reciprocal n u (g_of_recip rc) = rem_limb_with_reciprocal u rc.
+Proof. exact g_rem_limb_with_reciprocal_eq. Qed.
+Print Assumptions C02_src_rem_limb.
+
+Theorem C02_src_rem_limb_wide : forall n lo hi rc, length lo = n -> length hi = n -> (1 <= n)%nat -> Z.of_nat n < 2 ^ 64 ->
+  wf lo -> wf hi -> recip_words rc ->
+  g_rem_limb_with_reciprocal_wide n (lo, hi) (g_of_recip rc) = rem_limb_with_reciprocal_wide lo hi rc.
+Proof. exact g_rem_limb_with_reciprocal_wide_eq. Qed.
+Print Assumptions C02_src_rem_limb_wide.
+
+(** the SOURCE routines, fed with the SOURCE Reciprocal::new, return floor(u / d) and u mod d for every limb count and
+    every non-zero limb d *)
+Theorem C02_src_div_rem_limb_exact : forall n u d, length u = n -> (1 <= n)%nat -> Z.of_nat n < 2 ^ 64 -> wf u -> 0 < d < B ->
+  let '(q, r) := g_div_rem_limb_with_reciprocal n u (g_Reciprocal_new d) in
+  eval q = eval u / d /\ r = eval u mod d /\ wf q /\ length q = n.
+Proof. exact g_div_rem_limb_exact. Qed.
+Print Assumptions C02_src_div_rem_limb_exact.
+
+Theorem C02_src_rem_limb_exact : forall n u d, length u = n -> (1 <= n)%nat -> Z.of_nat n < 2 ^ 64 -> wf u -> 0 < d < B ->
+  g_rem_limb_with_reciprocal n u (g_Reciprocal_new d) = eval u mod d.
+Proof. exact g_rem_limb_exact. Qed.
+Print Assumptions C02_src_rem_limb_exact.
+
+Theorem C02_src_rem_limb_wide_exact : forall n lo hi d, length lo = n -> length hi = n -> (1 <= n)%nat -> Z.of_nat n < 2 ^ 64 ->
+  wf lo -> wf hi -> 0 < d < B ->
+  g_rem_limb_with_reciprocal_wide n (lo, hi) (g_Reciprocal_new d) = (eval lo + Bn n * eval hi) mod d.
+Proof. exact g_rem_limb_wide_exact. Qed.
+Print Assumptions C02_src_rem_limb_wide_exact.
+
+(** non-vacuity: the generated loops run on multi-limb inputs (3 limbs, a divisor that needs a 62-bit normalising shift) *)
+Example C02_src_loops_run :
+  g_div_rem_limb_with_reciprocal 3 [5; 7; 11] (g_Reciprocal_new 3) = ([1; 12297829382473034413; 3], 2) /\
+  g_rem_limb_with_reciprocal 3 [2 ^ 64 - 1; 2 ^ 64 - 1; 2 ^ 63] (g_Reciprocal_new (2 ^ 64 - 1))
+    = (2 ^ 64 - 1 + (2 ^ 64 - 1) * 2 ^ 64 + 2 ^ 63 * 2 ^ 128) mod (2 ^ 64 - 1) /\
+  g_rem_limb_with_reciprocal_wide 2 ([5; 0], [0; 1]) (g_Reciprocal_new 7) = (5 + 2 ^ 192) mod 7 /\
+  g_Reciprocal_new 3 = Build_g_Reciprocal (3 * 2 ^ 62) 62 (r_v (recip_new 3)).
+Proof. vm_compute. repeat split. Qed.
+
+
+(** ---- the constant-time long division Uint::div_rem (Src/GenDivCt.v, proofs in Src/GenDivCtP.v): every limb count
+    n >= 1 with 64 n < 2^32 (Uint::BITS is a u32), every dividend, every divisor ---- *)
+
+(** the source text of Uint::div_rem (both the Uint<1> short circuit and Knuth D with fixed trip counts: bits, shl, shl_limb,
+    Reciprocal::new, the outer loop with div3by2 / multiply-subtract / masked add-back / masked stores, the limb_div tail,
+    the copy-out loop, the two final shr) denotes the limb-level model: whenever the model returns Some (q, r), i.e. none of
+    the `expect`s / `assert!`s of the source fires, the generated function returns (q, r) *)
+Theorem C02_src_uint_div_rem : forall n x y q r, length x = n -> length y = n -> (1 <= n)%nat -> 64 * Z.of_nat n < 2 ^ 32 ->
+  wf x -> wf y -> uint_div_rem_l0 x y = Some (q, r) -> g_uint_div_rem n x y = (q, r).
+Proof. exact g_uint_div_rem_eq. Qed.
+Print Assumptions C02_src_uint_div_rem.
+
+(** hence for every non-zero divisor the SOURCE routine returns floor(x / y) and x mod y *)
+Theorem C02_src_uint_div_rem_exact : forall n x y, length x = n -> length y = n -> (1 <= n)%nat -> 64 * Z.of_nat n < 2 ^ 32 ->
+  wf x -> wf y -> eval y <> 0 ->
+  let '(q, r) := g_uint_div_rem n x y in
+  eval q = eval x / eval y /\ eval r = eval x mod eval y /\ wf q /\ wf r /\ length q = n /\ length r = n.
+Proof. exact g_uint_div_rem_exact. Qed.
+Print Assumptions C02_src_uint_div_rem_exact.
+
+(** non-vacuity: the generated function runs (3 limbs: a 2-limb divisor whose Knuth step needs the add-back; a one-limb
+    divisor: the limb_div tail; Uint<1>: the short circuit) *)
+Example C02_src_div_rem_runs :
+  g_uint_div_rem 3 [2 ^ 64 - 1; 2 ^ 64 - 1; 2 ^ 64 - 2] [2 ^ 64 - 1; 2 ^ 64 - 1; 0] = ([2 ^ 64 - 1; 0; 0], [2 ^ 64 - 2; 0; 0]) /\
+  g_uint_div_rem 3 [0; 0; 2 ^ 63] [1; 2 ^ 63; 0] = ([2 ^ 64 - 1; 0; 0], [1; 2 ^ 63 - 1; 0]) /\
+  g_uint_div_rem 3 [5; 7; 11] [3; 0; 0] = ([1; 12297829382473034413; 3], [2; 0; 0]) /\
+  g_uint_div_rem 1 [100] [7] = ([14], [2]).
 Proof. vm_compute. repeat split. Qed.
